@@ -19,6 +19,10 @@ class _MetaArray(type):
 
     @_intrinsic
     def __getitem__(cls, slice):
+        # An array type with element type and size cannot be parametrised again, the
+        # result would be cached as a subclass of the first parametrisation.
+        assert not hasattr(cls, "_count_"), f"{cls} is already parametrised"
+
         assert (
             isinstance(slice, tuple) and len(slice) == 2
         ), "cohdl.Array[] requires two arguments [DATA_TYPE, SIZE]"
